@@ -50,8 +50,33 @@ func enums(w *load.World) map[string]*enumFamily {
 }
 
 // comparedConsts: string constants a function compares something with.
-func comparedConsts(f *ssa.Function) map[string]bool {
+func comparedConsts(f *ssa.Function) map[string]bool { return comparedConstsN(f, 0) }
+
+// comparedConstsN also looks into predicate helpers of the module that f hands a string to
+// (an `isValidX(s string) bool` extracted from a validator still enumerates the same constants).
+func comparedConstsN(f *ssa.Function, depth int) map[string]bool {
 	out := map[string]bool{}
+	if depth < 2 {
+		for _, b := range f.Blocks {
+			for _, in := range b.Instrs {
+				g := ssax.StaticModuleCallee(in)
+				if g == nil || g == f || g.Signature.Results().Len() != 1 || g.Signature.Results().At(0).Type().String() != "bool" {
+					continue
+				}
+				hasString := false
+				for i := 0; i < g.Signature.Params().Len(); i++ {
+					if bt, ok := g.Signature.Params().At(i).Type().Underlying().(*types.Basic); ok && bt.Info()&types.IsString != 0 {
+						hasString = true
+					}
+				}
+				if hasString {
+					for k := range comparedConstsN(g, depth+1) {
+						out[k] = true
+					}
+				}
+			}
+		}
+	}
 	for _, b := range f.Blocks {
 		for _, in := range b.Instrs {
 			bo, ok := in.(*ssa.BinOp)
@@ -219,9 +244,34 @@ func Enum(w *load.World, c *core.Collector) {
 
 // ------------------------------------------------------------------- LIMITS
 
+// funcDeclIndex maps function objects of the module to their declarations (for looking through helpers).
+func funcDeclIndex(w *load.World) map[types.Object]*funcDeclInfo {
+	out := map[types.Object]*funcDeclInfo{}
+	for _, p := range w.ByPath {
+		for _, f := range p.Syntax {
+			for _, d := range f.Decls {
+				if fd, ok := d.(*ast.FuncDecl); ok && fd.Body != nil {
+					if obj := p.TypesInfo.Defs[fd.Name]; obj != nil {
+						out[obj] = &funcDeclInfo{fd, p.TypesInfo}
+					}
+				}
+			}
+		}
+	}
+	return out
+}
+
+type funcDeclInfo struct {
+	decl *ast.FuncDecl
+	info *types.Info
+}
+
+var limitsHelpers map[types.Object]*funcDeclInfo
+
 func Limits(w *load.World, c *core.Collector) {
 	props := []string{"C18"}
 	total := 0
+	limitsHelpers = funcDeclIndex(w)
 	var paths []string
 	for p := range w.ByPath {
 		paths = append(paths, p)
@@ -299,6 +349,37 @@ func Limits(w *load.World, c *core.Collector) {
 					var got []constant.Value
 					if fd != nil {
 						got = comparedWithField(p.TypesInfo, fd.Body, recv, field)
+					}
+					// the other direction for enumerations: Validate accepts nothing the documentation does not list
+					var documented []string
+					for _, wv := range wants {
+						if strings.HasPrefix(wv.desc, "oneof:") {
+							documented = append(documented, constant.StringVal(wv.v))
+						}
+					}
+					if len(documented) > 0 && fd != nil {
+						var extra []string
+						for _, g := range got {
+							if g.Kind() != constant.String || constant.StringVal(g) == "" {
+								continue
+							}
+							known := false
+							for _, d := range documented {
+								if d == constant.StringVal(g) {
+									known = true
+								}
+							}
+							if !known {
+								extra = append(extra, constant.StringVal(g))
+							}
+						}
+						sort.Strings(extra)
+						key := fmt.Sprintf("%s.%s.%s:oneof-only", p.Name, ts.Name.Name, field)
+						if len(extra) > 0 {
+							c.Add("LIMITS", key, core.Violation, w.Position(fl.Pos()), fmt.Sprintf("Validate of %s lets %s be one of %v, which the documented enumeration %v does not list", ts.Name.Name, field, dedupe(extra), documented), props...)
+						} else {
+							c.Add("LIMITS", key, core.OK, w.Position(fl.Pos()), "", props...)
+						}
 					}
 					for _, wv := range wants {
 						total++
@@ -382,6 +463,34 @@ func comparedWithField(info *types.Info, body *ast.BlockStmt, recv, field string
 	}
 	ast.Inspect(body, func(n ast.Node) bool {
 		switch x := n.(type) {
+		case *ast.CallExpr:
+			// the field handed to a helper of the module: what the helper compares its parameter with
+			var callee types.Object
+			switch fn := x.Fun.(type) {
+			case *ast.Ident:
+				callee = info.Uses[fn]
+			case *ast.SelectorExpr:
+				callee = info.Uses[fn.Sel]
+			}
+			hd := limitsHelpers[callee]
+			if hd == nil || hd.decl.Body == body {
+				break
+			}
+			for i, a := range x.Args {
+				if !mentionsOrAlias(a) {
+					continue
+				}
+				// the i-th parameter's name
+				k := 0
+				for _, pf := range hd.decl.Type.Params.List {
+					for _, nm := range pf.Names {
+						if k == i {
+							got = append(got, comparedWithIdent(hd.info, hd.decl.Body, nm.Name)...)
+						}
+						k++
+					}
+				}
+			}
 		case *ast.BinaryExpr:
 			switch x.Op {
 			case token.EQL, token.NEQ, token.LSS, token.GTR, token.LEQ, token.GEQ:
@@ -402,6 +511,67 @@ func comparedWithField(info *types.Info, body *ast.BlockStmt, recv, field string
 					for _, e := range cc.(*ast.CaseClause).List {
 						if cv, ok := constOf(e); ok {
 							got = append(got, cv)
+						}
+					}
+				}
+			}
+		}
+		return true
+	})
+	return got
+}
+
+// comparedWithIdent: constants that identifier name (a parameter of a helper) is compared with, switched
+// over, or looked up among (composite literals passed to slices.Contains / used as a set).
+func comparedWithIdent(info *types.Info, body *ast.BlockStmt, name string) []constant.Value {
+	is := func(e ast.Expr) bool {
+		id, ok := e.(*ast.Ident)
+		return ok && id.Name == name
+	}
+	constOf := func(e ast.Expr) (constant.Value, bool) {
+		if tv, ok := info.Types[e]; ok && tv.Value != nil {
+			return tv.Value, true
+		}
+		return nil, false
+	}
+	var got []constant.Value
+	ast.Inspect(body, func(n ast.Node) bool {
+		switch x := n.(type) {
+		case *ast.BinaryExpr:
+			switch x.Op {
+			case token.EQL, token.NEQ, token.LSS, token.GTR, token.LEQ, token.GEQ:
+				if is(x.X) {
+					if cv, ok := constOf(x.Y); ok {
+						got = append(got, cv)
+					}
+				}
+				if is(x.Y) {
+					if cv, ok := constOf(x.X); ok {
+						got = append(got, cv)
+					}
+				}
+			}
+		case *ast.SwitchStmt:
+			if x.Tag != nil && is(x.Tag) {
+				for _, cc := range x.Body.List {
+					for _, e := range cc.(*ast.CaseClause).List {
+						if cv, ok := constOf(e); ok {
+							got = append(got, cv)
+						}
+					}
+				}
+			}
+		case *ast.CallExpr:
+			// slices.Contains(list, name) with a literal list
+			for _, a := range x.Args {
+				if is(a) {
+					for _, b := range x.Args {
+						if cl, ok := b.(*ast.CompositeLit); ok {
+							for _, e := range cl.Elts {
+								if cv, ok := constOf(e); ok {
+									got = append(got, cv)
+								}
+							}
 						}
 					}
 				}
